@@ -151,40 +151,43 @@ theorem LockI_release (h : LockI s) (h0 : cIn s.cpc = true) (h1 : t.lock = none)
 theorem ConsI_afterResults (s0 : St) (call : Call) (hc : s0.cur = some call) (hwf : s0.wf ∉ s0.buffer)
     (hun : call.ordered = false → s0.fRun = true) : ConsI (afterResults s0) := by
   obtain ⟨buf', wf', fin', out', c', har, hw', hcs⟩ := afterResults_spec s0 call hc hwf
-  have hcl : c' = .flowClear ∨ c' = .flowIsSet ∨ c' = .rdSending := by
-    rcases hcs with ⟨_, ⟨h, _⟩ | ⟨h, _⟩⟩ | ⟨_, h, _⟩
+  have hcl : AfterPc c' := by
+    rcases hcs with ⟨_, ⟨h, _⟩ | ⟨h, _⟩⟩ | ⟨_, h, _⟩ | ⟨wid, h, _⟩
     · exact Or.inl h
     · exact Or.inr (Or.inl h)
-    · exact Or.inr (Or.inr h)
+    · exact Or.inr (Or.inr (Or.inl h))
+    · exact Or.inr (Or.inr (Or.inr ⟨wid, h⟩))
   have hcpc : (afterResults s0).cpc = c' := by rw [har]
   constructor
-  · rw [hcpc]; intro a; rcases hcl with h | h | h <;> rw [h] at a <;> cases a
-  · rw [hcpc]; intro a; rcases hcl with h | h | h <;> rw [h] at a <;> cases a
+  · rw [hcpc]; intro a; rcases hcl with h | h | h | ⟨wid, h⟩ <;> rw [h] at a <;> cases a
+  · rw [hcpc]; intro a; rcases hcl with h | h | h | ⟨wid, h⟩ <;> rw [h] at a <;> cases a
   · rw [har]; intro a; cases a
-  · rw [hcpc]; intro a; rcases hcl with h | h | h <;> rw [h] at a <;> cases a
+  · rw [hcpc]; intro a; rcases hcl with h | h | h | ⟨wid, h⟩ <;> rw [h] at a <;> cases a
   · rw [har]; exact hw'
   · intro a b c
-    rcases hcs with ⟨_, ⟨h, hb⟩ | ⟨h, _⟩⟩ | ⟨ho, h, _⟩
+    rcases hcs with ⟨_, ⟨h, hb⟩ | ⟨h, _⟩⟩ | ⟨ho, h, _⟩ | ⟨wid, h, _⟩
     · exact hb
     · rw [hcpc, h] at b; cases b
     · exfalso
       have hfr : (afterResults s0).fRun = s0.fRun := by rw [har]
       rw [hfr, hun ho, hcpc, h] at c
       rcases c with c | c <;> cases c
-  · rw [hcpc]; intro a; rcases hcl with h | h | h <;> rw [h] at a <;> cases a
+    · rw [hcpc, h] at a; cases a
+  · rw [hcpc]; intro a; rcases hcl with h | h | h | ⟨wid, h⟩ <;> rw [h] at a <;> cases a
 
 /-- what else `afterResults` leaves alone -/
 theorem afterResults_frame (s0 : St) (call : Call) (hc : s0.cur = some call) (hwf : s0.wf ∉ s0.buffer) :
-    ((afterResults s0).cpc = .flowClear ∨ (afterResults s0).cpc = .flowIsSet ∨ (afterResults s0).cpc = .rdSending) ∧
+    AfterPc (afterResults s0).cpc ∧
     (afterResults s0).workers = s0.workers ∧ (afterResults s0).procs = s0.procs ∧ (afterResults s0).cfg = s0.cfg ∧
     (afterResults s0).rpc = s0.rpc ∧ (afterResults s0).rAlive = s0.rAlive ∧ (afterResults s0).replQ = s0.replQ ∧
     (afterResults s0).lock = s0.lock ∧ (afterResults s0).workQ = s0.workQ := by
   obtain ⟨buf', wf', fin', out', c', har, hw', hcs⟩ := afterResults_spec s0 call hc hwf
-  have hcl : c' = .flowClear ∨ c' = .flowIsSet ∨ c' = .rdSending := by
-    rcases hcs with ⟨_, ⟨h, _⟩ | ⟨h, _⟩⟩ | ⟨_, h, _⟩
+  have hcl : AfterPc c' := by
+    rcases hcs with ⟨_, ⟨h, _⟩ | ⟨h, _⟩⟩ | ⟨_, h, _⟩ | ⟨wid, h, _⟩
     · exact Or.inl h
     · exact Or.inr (Or.inl h)
-    · exact Or.inr (Or.inr h)
+    · exact Or.inr (Or.inr (Or.inl h))
+    · exact Or.inr (Or.inr (Or.inr ⟨wid, h⟩))
   rw [har]
   exact ⟨hcl, rfl, rfl, rfl, rfl, rfl, rfl, rfl, rfl⟩
 
@@ -197,7 +200,7 @@ theorem Rest_afterResults {s0 : St} (pr : ProcI s) (rp : ReplI s) (ct : CntI s) 
   have hq : (afterResults s0).workQ = s.workQ := f8.trans eq
   apply Rest_move pr rp ct e' (by rw [hq]) (by rw [hq]; exact id)
   all_goals
-    rcases hcl with h | h | h <;> rw [h] <;> cases hcp : s.cpc <;>
+    rcases hcl with h | h | h | ⟨wid, h⟩ <;> rw [h] <;> cases hcp : s.cpc <;>
       simp [hcp, getPathPc, idxV, rCall, rStopping, exitPhasePc, rJoinPc, stopsV] at hgp ⊢
 
 /-! ### the next call, or `__exit__` -/
